@@ -8,8 +8,7 @@ from sa.astq import norm_text
 from sa.idioms import guarded
 from sa.project import dotted, walk_local, AnalysisError
 
-EXPLANATION = (
-    "Table agreement and dataflow shape decided on the source and the "
+EXPLANATION = (    "Table agreement and dataflow shape decided on the source and the "
     "documentation: R1 every default documented in configuration.rst (watcher "
     "section) equals the parser default (config.watcher_defaults / the dget "
     "default of its branch) and the Watcher.__init__ default; R2 the typing "
@@ -27,7 +26,9 @@ EXPLANATION = (
     "_expand_section visits every option but name/env and recurses into dicts, "
     "the strict parser keeps the first definition of a key and keys are case-"
     "sensitive; R5 no source of nondeterminism in get_config's call closure and "
-    "the three result lists are sorted by name. Decides these necessary "
+    "the three result lists are sorted by name."
+    "R3 also requires each watcher's env to be a fresh dict (never an alias of a shared one). "
+    "Decides these necessary "
     "conditions, not the meaning of every generated ini file.")
 ASSUMPTIONS = ["documentation phrases recognised: '(default: X)', 'Defaults to X', 'Default: X'"]
 
